@@ -177,6 +177,7 @@ pub fn run(a: &Args) {
     }
     crate::boundary::boundary_pass(&mut out, &mut rng, "C01", (a.n / 1000).clamp(2, 20));
     crate::boundary::coverage_table(&mut out);
+    report_executor_api(&mut out, "C01");
     out.extra.insert("families_covered".into(), serde_json::json!(FAMILIES));
     out.extra.insert("not_in_command_enum".into(), serde_json::json!(NOT_IN_ENUM));
     out.finish("case = one sequence of 1..60 commands (strings, counters, keys, expiry, lists, sets, hashes, sorted sets over 5 colliding keys; clock moved between commands by 0 / 1 ms / random / exactly-the-deadline / one-ms-before / one-after, through set_time or update_time_readonly) run on a fresh real CommandExecutor; after every command the reply and the whole visible keyspace are compared with the Lean reference model; distinct by the op text of the whole sequence; non-trivial iff at least one command changed the visible keyspace and at least one reply was neither an error nor nil/0/empty; plus (harness/src/datax.rs) one case per operation sequence on a real RedisSortedSet / RedisList / SDS (DS lines: every answer and, after every mutating sorted-set op, the whole skip-list structure compared with the transcription models), non-trivial iff the structure held >= 2 elements at some point and a read returned a non-empty answer (SDS: the sequence crossed the 23-byte boundary or has more than 3 ops)");
